@@ -837,6 +837,16 @@ func ruleC09DimensionWalk(c *Ctx) {
 			}
 		})
 		c.Check(ok, "c09.dimension-walk", "SelectMany", c.P.Pos(sm.Pos()), "Unwind(result, len(dimensions)-1)", whySM)
+		// the depth is the number of WRITTEN dimensions minus one; only the dimensions that iterate (`each`) add a level
+		// to the result, so an index-only selector over array-valued elements loses a level of the selected VALUE:
+		// d[0:0] differs from d[0][0] when d[0][0] is itself an array of arrays
+		countsIterating := false
+		allInstrs(sm, func(_ *ssa.BasicBlock, in ssa.Instruction) {
+			if call, isC := in.(*ssa.Call); isC && (strings.HasSuffix(calleeName(call.Common()), ".GetIndex") || strings.HasSuffix(calleeName(call.Common()), ".GetType")) {
+				countsIterating = true
+			}
+		})
+		c.Check(countsIterating, "c09.dimension-walk", "SelectMany/flatten-depth", c.P.Pos(sm.Pos()), "flattens by the number of iterating dimensions", "SelectMany flattens by len(dimensions)-1 whatever the dimensions are: an index dimension iterates nothing, so `d[0:0]` on {\"d\":[[[[1],[2]],[[3],[4]]]]} returns [1,2] where d[0][0] returns [[1],[2]] (one level of the selected value is removed)")
 	}
 	if uw := c.P.Func(modPath, "Unwind"); uw != nil {
 		c.Fn("Unwind")
@@ -1119,3 +1129,49 @@ func ruleC09PipeString(c *Ctx) {
 
 // a parse that an evaluation can change makes the next evaluation of the same query differ (C12)
 func init() { register("C12", ruleC09ParsedImmutable) }
+
+func init() { register("C09", ruleC09PipeNumber) }
+
+// ruleC09PipeNumber: `{k|number}` leaves a missing key NULL.
+func ruleC09PipeNumber(c *Ctx) {
+	c.Doc("c09.pipe-number", "reshaping step `{k|number}` (the NUMBER arm of Reader's pipe case): the value read under the key is tested against NULL before it is required to be a string — a missing or NULL key stays NULL, as it does for `{k}` and `{k|string}`; without the test one row that lacks the key fails the whole selector with `k is of <nil> type`")
+	f := c.P.Func(modPath, "Reader")
+	if f == nil {
+		c.Unknown("c09.pipe-number", "Reader", "-", "anchor lost")
+		return
+	}
+	n := 0
+	var why []string
+	deepInstrs(f, func(g *ssa.Function, tb *TB, b *ssa.BasicBlock, in ssa.Instruction) {
+		ta, ok := in.(*ssa.TypeAssert)
+		if !ok || !ta.CommaOk || shortType(ta.AssertedType) != "string" {
+			return
+		}
+		if !strings.Contains(tb.Of(ta.X).String(), "GetKey(") {
+			return
+		}
+		n++
+		guarded := false
+		for _, fc := range factsAt(b) {
+			bo, isBo := fc.cond.(*ssa.BinOp)
+			if !isBo || !isNilConst(bo.Y) {
+				continue
+			}
+			// the same value, or another read of the same key
+			if bo.X != ta.X && tb.Of(bo.X).String() != tb.Of(ta.X).String() {
+				continue
+			}
+			if bo.Op == token.EQL && !fc.truth || bo.Op == token.NEQ && fc.truth {
+				guarded = true
+			}
+		}
+		if !guarded {
+			why = append(why, "the value under the key is required to be a string at "+c.P.Pos(ta.Pos())+" before NULL is considered: `{id|number}` fails on a row without `id`")
+		}
+	})
+	if n == 0 {
+		c.Unknown("c09.pipe-number", "Reader/{k|number}", c.P.Pos(f.Pos()), "anchor lost: no string requirement on a reshaped value")
+		return
+	}
+	c.Check(len(why) == 0, "c09.pipe-number", "Reader/{k|number}", c.P.Pos(f.Pos()), "NULL stays NULL", strings.Join(uniq(why), "; "))
+}
